@@ -61,11 +61,63 @@ def _np_safe(sp, recs):
     return out
 
 
+def _built_case(i, rng, tier):
+    """Scaling a state assembled by Stack.build / Fraction.build (NaN thresholds; immutable shell around live children):
+    laws on the real results, and a non-positive factor must give an empty aggregator that still merges with the operand."""
+    label, sp = C.pick_spec(i // 15, rng, tier, OPTS, "c08")
+    bkind = rng.choice(["stack", "stack", "fraction"])
+    streams = [S.gen_stream(rng, sp, rng.randint(0, 5), {"nonpos_p": 0.0}) for _ in range(rng.randint(2, 3))]
+    f = rng.choice(S.FACTORS_POS)
+    fneg = rng.choice(S.FACTORS_NONPOS)
+    wit = {"tree": S.describe(sp), "spec": sp, "built": bkind, "streams": [C.stream_json(st) for st in streams], "f": S.jsonable(f), "nonpositive": S.jsonable(fneg)}
+    failures = []
+    counters = {"built_operand:" + bkind: 1}
+    scale = max(O.scale_of(st) for st in streams) * max(1.0, float(f)) * 4
+
+    def bad(msg, **kw):
+        failures.append(C.fail(None, msg, **dict(wit, **kw)))
+
+    h = C.built_state(sp, streams, bkind)
+    before = O.text(h)
+
+    def law(name, a, b):
+        try:
+            d = O.diff(O.observe(a()), O.observe(b()), scale)
+        except Exception as e:  # noqa: BLE001
+            bad("built operand: %s raised %s: %s" % (name, type(e).__name__, str(e)[:160]), law=name)
+            return
+        counters["built_laws_checked"] = counters.get("built_laws_checked", 0) + 1
+        if d:
+            bad("built operand: %s fails: %s" % (name, C.fmt_diff(d)), law=name)
+
+    twin = C.built_state(sp, [[(r, w * f) for r, w in st] for st in streams], bkind)
+    law("h*f == the same assembly of parts refilled with weights*f", lambda: h * f, lambda: twin)
+    law("f*h == h*f", lambda: f * h, lambda: h * f)
+    law("h*1 == h", lambda: h * 1, lambda: h)
+    law("h*2 == h+h", lambda: h * 2, lambda: h + h)
+    law("h*nonpositive == h.zero()", lambda: h * fneg, lambda: h.zero())
+    law("(h*nonpositive) + h == h", lambda: (h * fneg) + h, lambda: h)
+    law("h + (h*nonpositive) == h", lambda: h + (h * fneg), lambda: h)
+    law("(h*f) + h == h*(f+1)", lambda: (h * f) + h, lambda: h * (f + 1))
+    if O.text(h) != before:
+        bad("scaling a built operand changed it")
+    return {
+        "digest": C.digest(sp, bkind, wit["streams"], S.jsonable(f), S.jsonable(fneg)),
+        "nontrivial": counters.get("built_laws_checked", 0) > 0,
+        "failures": failures[:4],
+        "counters": counters,
+        "sets": {"kinds": S.kinds_in(sp), "factors": {repr(S.jsonable(f)), repr(S.jsonable(fneg))}},
+        "sample": {"kind": "built operand", "stratum": label, "tree": S.describe(sp), "built": bkind, "f": S.jsonable(f), "nonpositive": S.jsonable(fneg)},
+    }
+
+
 def run_case(i, rng, tier):
     from histogrammar.defs import Factory
 
     if i % 25 == 24:
         return _transform_case(i, rng, tier)
+    if i % 15 == 7:
+        return _built_case(i, rng, tier)
     label, sp = C.pick_spec(i, rng, tier, OPTS, "c08")
     n = rng.randint(1, 10)
     stream = S.gen_stream(rng, sp, n)
@@ -226,6 +278,20 @@ def run_case(i, rng, tier):
     except Exception as e:  # noqa: BLE001
         bad("merging / rescaling the product raised %s: %s" % (type(e).__name__, str(e)[:200]), op="merge")
 
+    # the product is an aggregator of its own: nothing done to it (fills, vectorised fills, +=, rescaling) may show in
+    # the operand it was computed from, nor in another product of the same operand
+    counters["operand_checked_after_continuation"] = 1
+    if O.text(h) != before:
+        d_ = O.diff(json.loads(before), json.loads(O.text(h)), 0.0, exact=True)
+        bad("filling / merging into h*f changed h itself: %s" % C.fmt_diff(d_), op="aliasing")
+    try:
+        other_prod = prods["f*h"]
+        d_ = O.diff(want, obs(other_prod), scale)
+        if d_:
+            bad("filling / merging into h*f changed the separately computed f*h: %s" % C.fmt_diff(d_), op="aliasing")
+    except Exception as e:  # noqa: BLE001
+        bad("observing f*h after the continuation on h*f raised %s" % type(e).__name__, op="aliasing")
+
     nt = C.nontrivial(sp, stream) and counters.get("refill_comparisons", 0) == 2 and counters.get("merged", 0) == 1
     return {
         "digest": C.digest(sp, stream, S.jsonable(f), S.jsonable(g), reloaded, pickled),
@@ -258,7 +324,7 @@ def _transform_case(i, rng, tier):
 
 def conclusive(agg):
     out = []
-    for c in ("live_operand", "reloaded_operand", "pickled_operand", "vectorised_operand", "refill_comparisons", "nonpositive_factor_checked", "laws_checked", "hashed", "serialised", "filled", "filled_numpy", "merged", "transform_refusals_checked"):
+    for c in ("live_operand", "reloaded_operand", "pickled_operand", "vectorised_operand", "built_laws_checked", "operand_checked_after_continuation", "refill_comparisons", "nonpositive_factor_checked", "laws_checked", "hashed", "serialised", "filled", "filled_numpy", "merged", "transform_refusals_checked"):
         if not agg.counters.get(c):
             out.append("never exercised: " + c)
     miss = [k for k in S.ALL_KINDS if k not in agg.sets.get("kinds", ())]
